@@ -102,7 +102,8 @@ def rerun(ctx, hb, work, sid, s, procs=None):
 def judge_multi(ctx, sid, s, sp, st, count, model):
     o = s["obs"]
     xs = sp["xs"].split("+")
-    short = "multi/PHONE_MIGRATE_%s/normal%s/seq-%s/%s" % ("+".join(xs), sp["normal"], sp["seq"], sp["sched"])
+    short = "multi/PHONE_MIGRATE_%s/normal%s/seq-%s/%s%s" % ("+".join(xs), sp["normal"], sp["seq"], sp["sched"],
+                                                            "/GOMAXPROCS=" + sp["procs"] if sp.get("procs") else "")
     rep = {"scenario": s["spec"], "observations": {k: (" ".join(v) if isinstance(v, list) else v) for k, v in o.items()},
            "history": "%d callers send auth.sendCode with their own phone numbers to A%s; A answers all in one container: rpc_error 303 PHONE_MIGRATE_%s%s; "
                       "data centres 2 and 12 live at B, 3 at C; order of the callers: %s"
@@ -194,7 +195,8 @@ def judge(ctx, sid, s, model, st, count):
     classes, sched, infl, samples, abandoned = st["classes"], st["sched"], st["infl"], st["samples"], st["abandoned"]
     text = show(s["text"])
     short = "%s/%s/code%s/seq-%s/inflight%s/%s%s" % (text, sp["setup"], s["code"], sp["seq"], sp["inflight"], sp["sched"],
-                                                     "/B-refuses" if sp.get("b") == "error" else "")
+                                                     ("/B-refuses" if sp.get("b") == "error" else "") +
+                                                     ("/GOMAXPROCS=" + sp["procs"] if sp.get("procs") else ""))
     o = s["obs"]
     rep = {"scenario": s["spec"], "error_text": text, "error_code": int(s["code"]), "client_dc_table": s["dcs"],
            "observations": {k: (" ".join(v) if isinstance(v, list) else v) for k, v in o.items()},
